@@ -9,6 +9,10 @@ WArrB  == [kind |-> "array", x0 |-> 0, shape |-> <<2, 2>>, target |-> <<1, 4>>]
 WPlain == [kind |-> "plain", x0 |-> 5]
 WRefA  == [kind |-> "ref", x0 |-> 1]
 WRefB  == [kind |-> "ref", x0 |-> 10]
+WLoadA == [kind |-> "load", x0 |-> 0, cells |-> 3]
+WLoadB == [kind |-> "load", x0 |-> 0, cells |-> 2]
+WorkLL == 1 :> WLoadA @@ 2 :> WLoadB
+WorkLP == 1 :> WLoadA @@ 2 :> WPlain
 WorkRR == 1 :> WRefA @@ 2 :> WRefB
 WorkRA == 1 :> WRefA @@ 2 :> WArrB
 WorkII == 1 :> WIterA @@ 2 :> WIterB
